@@ -23,8 +23,27 @@ namespace {
 
 constexpr size_t kMaxStr = ArduinoJson::detail::StringNode::maxLength;
 
+// The name of the code returned, after checking that the error object is coherent with itself: one of the
+// six documented codes, and code(), c_str(), f_str(), operator bool, ==, != and << all say the same.
 const char* codeName(DeserializationError e) {
-  return e.c_str();
+  static const char* names[] = {"Ok", "EmptyInput", "IncompleteInput", "InvalidInput", "NoMemory", "TooDeep"};
+  int c = int(e.code());
+  if (c < 0 || c > 5)
+    violate("C03:undocumented-code", "deserializer returned code " + std::to_string(c));
+  const char* n = e.c_str();
+  std::ostringstream os1, os2;
+  os1 << e;
+  os2 << e.code();
+  std::string flashName;  // f_str() designates program memory: read it the way a sketch would
+  for (const char* fp = reinterpret_cast<const char*>(e.f_str()); pgm_read_byte(fp) != 0 && flashName.size() < 32; fp++)
+    flashName += char(pgm_read_byte(fp));
+  bool coherent = std::string(n) == names[c] && flashName == names[c] &&
+                  bool(e) == (c != 0) && e == e.code() && !(e != e.code()) && e.code() == e && e == DeserializationError(e.code()) &&
+                  !(e != DeserializationError(e.code())) && os1.str() == names[c] && os2.str() == names[c] &&
+                  (e == DeserializationError::Ok) == (c == 0);
+  if (!coherent)
+    violate("C03:undocumented-code", std::string("the error object is not coherent with itself: code ") + std::to_string(c) + ", c_str " + n);
+  return names[c];
 }
 
 struct OneResult {
